@@ -148,3 +148,59 @@ def whole_value_stores(prog, type_name, crates=("pasfmt",)):
                 if a["k"] in ("copy", "move") and not a["place"]["p"] and b.locals[a["place"]["l"]]["ty"] in ("&mut " + type_name,):
                     out.append((b, c.where(), "call %s(&mut %s)" % ((c.callee or "?"), short_ty)))
     return out
+
+
+def small_value_class(prog, body, rv):
+    """Abstract value of a stored u16 expression: a set of descriptors — ints, "[a,b]" for a clamp to constants, "min(_,k)", or the
+    canonical text for anything else.  Calls of small loop-free workspace helpers are expanded through their decision table (so
+    `clamp_helper(first, old)` with rows {1, 1, 2} is the set {1, 2})."""
+    import re as _re
+    from table import Table, TooComplex, render
+    if rv["k"] == "use" and rv["op"]["k"] == "const" and "int" in rv["op"]:
+        return {rv["op"]["int"]}
+    if rv["k"] not in ("use", "cast"):
+        return {"?" + rv["k"]}
+    op = rv["op"]
+    c = canon(body, op)
+    m = _re.match(r"^clamp\(.*,(\d+),(\d+)\)$", c)
+    if m:
+        return {"[%s,%s]" % (m.group(1), m.group(2))}
+    m = _re.match(r"^min\(.*,(\d+)\)$", c)
+    if m:
+        return {"min(_,%s)" % m.group(1)}
+    if op["k"] in ("copy", "move") and not op["place"]["p"]:
+        ds = [d for d in body.defs.get(op["place"]["l"], []) if d[0] in ("assign", "call")]
+        if len(ds) == 1 and ds[0][0] == "call":
+            t = ds[0][2]
+            callee = prog.body(norm(t.get("resolved") or t.get("callee") or ""))
+            if callee is not None and callee.crate.startswith("pasfmt") and not callee.loops() and len(callee.blocks) < 80:
+                try:
+                    tb = Table(prog, callee, inline=1)
+                except TooComplex:
+                    tb = None
+                if tb is not None and tb.rows:
+                    out = set()
+                    for _, res in tb.rows:
+                        r = render(res)
+                        if _re.match(r"^\d+$", r):
+                            out.add(int(r))
+                        else:
+                            m2 = _re.match(r"^call:clamp\(.*,(\d+),(\d+)\)$", r) or _re.match(r"^clamp\(.*,(\d+),(\d+)\)$", r)
+                            out.add("[%s,%s]" % (m2.group(1), m2.group(2)) if m2 else r)
+                    return out
+    return {c}
+
+
+def within(values, lo, hi):
+    """every descriptor of small_value_class lies in [lo, hi]"""
+    import re as _re
+    for v in values:
+        if isinstance(v, int):
+            if not lo <= v <= hi:
+                return False
+            continue
+        m = _re.match(r"^\[(\d+),(\d+)\]$", str(v))
+        if m and lo <= int(m.group(1)) and int(m.group(2)) <= hi:
+            continue
+        return False
+    return bool(values)
